@@ -53,7 +53,73 @@ def gen_config(rng, pipe_in=None):
     return cfg
 
 
+def gen_known(rng):
+    """Sessions at the size limits whose outcome is known by construction (an unexecuted branch full of pushes, then a
+    known tail): too long to step interactively in the simulator (every step prints the remaining script), so the
+    expectation comes from how the script was built, not from a reference run."""
+    from . import spend, tx as T
+    def body(n, tail):
+        return bytes([0x00, 0x63]) + bytes([0x51]) * n + bytes([0x68]) + tail
+    kind = rng.weighted([(3, "script"), (4, "legacy-spend"), (1, "oversize")])
+    scn = {"family": "known", "opts": [], "stack": [], "spend": None, "observe": False, "tty": [1, 1], "env": {}, "known": True}
+    x = rng.range(2, 16)
+    if kind == "script":
+        n = rng.choice([10, 4000, 9990, 9994, 9995])
+        scn["script"] = body(n, bytes([0x50 + x])).hex()          # ... OP_x
+        scn["expect"] = {"code": 0, "stdout": "%02x\n" % x}
+    elif kind == "oversize":
+        scn["script"] = body(9997 + rng.range(0, 3), bytes([0x50 + x])).hex()     # 10001..10003 bytes: over MAX_SCRIPT_SIZE
+        scn["expect"] = {"code": 1, "stdout": None}
+    else:
+        n1 = rng.choice([5, 3000, 5200, 9000, 9990])
+        n2 = rng.choice([5, 3000, 5200, 9000, 9990])
+        ssig = body(n1, bytes([0x50 + x]))
+        spk = body(n2, bytes([0x50 + x, 0x87]))                   # ... OP_x OP_EQUAL
+        fund = spend.funding(spk)
+        class _R:
+            def bytes(self, n): return bytes([0x42]) * n
+            def choice(self, seq): return seq[0]
+        tx = spend.spending_skeleton(fund, _R())
+        tx.vin[0].script_sig = ssig
+        scn["script"] = None
+        scn["spend"] = {"tx": tx.ser().hex(), "txin": fund.ser().hex()}
+        scn["expect"] = {"code": 0, "stdout": "01\n"}
+        scn["steps"] = n1 + n2 + 9
+    scn["cfg"] = gen_config(rng)
+    scn["cfg2"] = gen_config(rng, pipe_in=rng.chance(50))
+    scn["stdin_fault"] = None
+    scn["verbose"] = False
+    scn["debug"] = []
+    return scn
+
+
+def evaluate_known(ctx, scn, ev):
+    for key in ("cfg", "cfg2"):
+        cfg = scn[key]
+        w = world_for(scn, cfg, None)
+        run = ctx.run(w)
+        ev.hashes.append(run.hash())
+        kind, detail = run.classify()
+        ev.counters["term:" + kind] += 1
+        conf = "in=%s out=%s" % (cfg["in"], cfg["out"])
+        if kind not in ("return", "exit"):
+            ev.add(PROP, "abnormal-termination", detail if kind == "sanitizer" else kind, "non-interactive run (%s) of a %s-step session ended by %s %s" % (conf, scn.get("steps", "long"), kind, detail[:100]))
+            continue
+        code, out = run.exit_code(), run.stdout().decode(proto.L1)
+        exp = scn["expect"]
+        if exp["code"] == 0 and (code != 0 or out != exp["stdout"]):
+            ev.add(PROP, "result-differs", "known-outcome", "a session of %s steps built to end with the stack %r gives status %s, stdout %r, stderr %r (%s)"
+                   % (scn.get("steps", len(scn.get("script") or "") // 2), exp["stdout"], code, out[:60], run.stderr().decode(proto.L1).strip()[-80:], conf))
+        elif exp["code"] != 0 and code == 0:
+            ev.add(PROP, "result-differs", "known-outcome", "a script over the size limit is reported as a success (%s)" % conf)
+    ev.counters["probe:known_outcome_session"] += 1
+    ev.nontrivial = True
+    ev.cov = [("known", scn.get("steps"), len(scn.get("script") or ""))]
+
+
 def gen(rng, tier, idx):
+    if rng.chance(2):
+        return gen_known(rng)
     scn = workloads.session_scenario(rng, purpose="noninteractive")
     scn["observe"] = True
     kind = rng.weighted([(50, "ok"), (25, "fail"), (25, "throw")])
@@ -169,6 +235,8 @@ def evaluate(ctx, scn):
 
 
 def _evaluate(ctx, scn, ev):
+    if scn.get("known"):
+        return evaluate_known(ctx, scn, ev)
     ref = refmod.reference(ctx, scn, ev)
     ev.counters["term:" + ref.run.classify()[0]] += 1
     cfg = scn["cfg"]
